@@ -9,6 +9,8 @@ whose VALUE is the identifier (a 25-line lexer/evaluator, below).  That a well-f
 [@attr=<string>] selects exactly the nodes whose attribute equals the string is XPath semantics
 implemented by libxml2 and is trusted, not re-derived.
 """
+import os
+
 import odfdo.element as E
 from odfdo.body import Body
 from odfdo.manifest import Manifest
@@ -78,7 +80,19 @@ def eval_string_expr(q, i):
 
 
 def pred_ok(q, prefix, name, suffix):
-    if q is None or not q.startswith(prefix):
+    """q == prefix + <XPath string expression whose value is name> + suffix.
+    Cheap cases first (one string equality each): a "..." literal is valid iff name has no
+    double quote, a '...' literal iff it has no apostrophe; only names with both kinds need the
+    general evaluator (concat)."""
+    if q is None:
+        return False
+    dq = '"' in name
+    sq = "'" in name
+    if not dq and q == prefix + '"' + name + '"' + suffix:
+        return True
+    if not sq and q == prefix + "'" + name + "'" + suffix:
+        return True
+    if not q.startswith(prefix):
         return False
     r = eval_string_expr(q, len(prefix))
     if r is None:
@@ -111,25 +125,30 @@ LOOKUPS = [
     (lambda c, s: c.get_style("paragraph", display_name=s), "(style:style|style:default-style)[@style:display-name=", "][@style:family=\"paragraph\"]"),
 ]
 N_LOOKUPS = len(LOOKUPS)
+ALPHA = "a" + chr(34) + chr(39)
 
 
-def lookup_query(k: int, name: str) -> bool:
+K = int(os.environ.get("VERIF_K", "0"))  # which lookup (concrete per process)
+
+
+def lookup_query(name: str) -> bool:
     """
-    pre: 0 <= k < 20 and 1 <= len(name) <= 4 and xml_ok(name)
+    pre: 1 <= len(name) <= 3 and all(32 <= ord(ch) < 55296 for ch in name)
     post: _
     """
-    fn, prefix, suffix = LOOKUPS[k]
+    # any XML-legal characters, quotes and apostrophes included
+    fn, prefix, suffix = LOOKUPS[K]
     c = Cap()
     fn(c, name)
     return done(pred_ok(c.q, prefix, name, suffix))
 
 
-def lookup_query_noquote(k: int, name: str) -> bool:
+def lookup_query6(name: str) -> bool:
     """
-    pre: 0 <= k < 20 and 1 <= len(name) <= 6 and '"' not in name and xml_ok(name)
+    pre: 4 <= len(name) <= 4 and all(ch in ALPHA for ch in name)
     post: _
     """
-    fn, prefix, suffix = LOOKUPS[k]
+    fn, prefix, suffix = LOOKUPS[K]
     c = Cap()
     fn(c, name)
     return done(pred_ok(c.q, prefix, name, suffix))
@@ -137,7 +156,7 @@ def lookup_query_noquote(k: int, name: str) -> bool:
 
 def direct_query(name: str, other: str) -> bool:
     """
-    pre: 1 <= len(name) <= 5 and 0 <= len(other) <= 2
+    pre: 1 <= len(name) <= 2 and all(32 <= ord(ch) < 55296 for ch in name) and len(other) <= 1 and all(32 <= ord(ch) < 55296 for ch in other)
     post: _
     """
     # two predicates at once: the second identifier must not disturb the first (sorted attributes)
@@ -154,7 +173,7 @@ def direct_query(name: str, other: str) -> bool:
 
 def position_query(position: int) -> bool:
     """
-    pre: -1000000 <= position <= 1000000
+    pre: -100 <= position <= 100
     post: _
     """
     # ( ... )[n] mimics Python list indexing: n = position+1, last(), last()-k
@@ -168,7 +187,7 @@ def position_query(position: int) -> bool:
 
 def named_range_query(name: str) -> bool:
     """
-    pre: 1 <= len(name) <= 4
+    pre: 1 <= len(name) <= 3
     post: _
     """
     # get_named_range formats its own predicate.  Only names the NamedRange.name setter accepts
@@ -183,7 +202,7 @@ def named_range_query(name: str) -> bool:
 
 def manifest_query(path: str, which: int) -> bool:
     """
-    pre: 1 <= len(path) <= 4 and 0 <= which <= 1
+    pre: 1 <= len(path) <= 3 and 0 <= which <= 1
     post: _
     """
     m = CapManifest()
